@@ -742,7 +742,15 @@ where
             // with it (its sessions are purged by `FailSafe::expire` itself)
             #[cfg(feature = "case-resumption")]
             if let Some(fab_idx) = removed_fabric {
-                state.resumption.remove_for_fabric(fab_idx);
+                if let Err(e) = state
+                    .resumption
+                    .remove_for_fabric_persist(fab_idx, &self.kv)
+                {
+                    error!(
+                        "Failed to persist the removal of the resumption records of fabric {}: {:?}",
+                        fab_idx, e
+                    );
+                }
             }
 
             Ok::<_, Error>(removed_fabric)
